@@ -2314,7 +2314,7 @@ class Attribute(object):
             throw(TypeError, 'Cannot change value of primary key')
         with cache.flush_disabled():
             old_val =  obj._vals_.get(attr, NOT_LOADED)
-            if old_val is NOT_LOADED and reverse and not reverse.is_collection:
+            if old_val is NOT_LOADED and reverse and (attr.lazy or not reverse.is_collection):
                 old_val = attr.load(obj)
             status = obj._status_
             wbits = obj._wbits_
@@ -2917,7 +2917,7 @@ class Set(Collection):
         if items and (attr.lazy or not setdata):
             items = list(items)
             if not reverse.is_collection:
-                sql, adapter, attr_offsets = rentity._construct_batchload_sql_(len(items))
+                sql, adapter, attr_offsets = rentity._construct_batchload_sql_(len(items), query_attrs=(reverse,))
                 arguments = adapter(items)
                 cursor = database._exec_sql(sql, arguments)
                 items = rentity._fetch_objects(cursor, attr_offsets)
@@ -3356,7 +3356,7 @@ class SetInstance(object):
                 where_list.append([ converter.EQ, [ 'COLUMN', None, column ], [ 'PARAM', (i, None, None), converter ] ])
             if not reverse.is_collection:
                 table_name = rentity._table_
-                select_list, attr_offsets = rentity._construct_select_clause_()
+                select_list, attr_offsets = rentity._construct_select_clause_(query_attrs=(reverse,))
             else:
                 table_name = attr.table
                 columns = attr.reverse_columns if attr.symmetric else attr.columns
@@ -4235,13 +4235,14 @@ class EntityMeta(type):
         discr_values = [ [ 'VALUE', cls._discriminator_ ] for cls in entity._subclasses_ ]
         discr_values.append([ 'VALUE', entity._discriminator_])
         return [ 'IN', [ 'COLUMN', alias, discr_attr.column ], discr_values ]
-    def _construct_batchload_sql_(entity, batch_size, attr=None, from_seeds=True):
+    def _construct_batchload_sql_(entity, batch_size, attr=None, from_seeds=True, query_attrs=()):
         pc = local.prefetch_context
         attrs_to_prefetch = pc.get_frozen_attrs_to_prefetch(entity) if pc is not None else ()
-        query_key = batch_size, attr, from_seeds, attrs_to_prefetch
+        if attr is not None: query_attrs = (attr,)  # a lazy reference must be loaded to fill the reverse collection
+        query_key = batch_size, attr, from_seeds, attrs_to_prefetch, query_attrs
         cached_sql = entity._batchload_sql_cache_.get(query_key)
         if cached_sql is not None: return cached_sql
-        select_list, attr_offsets = entity._construct_select_clause_(all_attributes=True)
+        select_list, attr_offsets = entity._construct_select_clause_(all_attributes=True, query_attrs=query_attrs)
         from_list = [ 'FROM', [ None, 'TABLE', entity._table_ ]]
         if attr is None:
             columns = entity._pk_columns_
